@@ -246,11 +246,13 @@ class LimitedRun:
         return r
 
     def run(self, policy=None, max_calls=100000):
+        nerr = 0
         for _ in range(max_calls):
             r = self.code()
             if r == lz.MEMLIMIT_ERROR:
+                nerr += 1
                 new = policy(self, lz.L().lzma_memusage(C.byref(self.c.strm))) if policy else None
-                if new is None:
+                if new is None or nerr > 40:      # (a decoder that never gets past the limit must not loop forever)
                     break
                 if self.set_limit(new) != lz.OK:
                     break
